@@ -39,14 +39,14 @@ failing input. -/
 def slInterp (s : SimpleList.St) (o : SimpleList.Op) : String :=
   let B := WidExec.genB
   let r := match o with
-    | .down => WidExec.runList B.listDown s 0 0
-    | .up => WidExec.runList B.listUp s 0 0
-    | .home => WidExec.runList B.listHome s 0 0
-    | .«end» => WidExec.runList B.listEnd s 0 0
-    | .pageDown h => WidExec.runList B.listPageDown s h 0
-    | .pageUp h => WidExec.runList B.listPageUp s h 0
-    | .setItems k => WidExec.runList B.listSetItems s 0 k
-    | .draw h => WidExec.runList B.listDraw s h 0
+    | .down => WidExec.runList B B.listDown s 0 0
+    | .up => WidExec.runList B B.listUp s 0 0
+    | .home => WidExec.runList B B.listHome s 0 0
+    | .«end» => WidExec.runList B B.listEnd s 0 0
+    | .pageDown h => WidExec.runList B B.listPageDown s h 0
+    | .pageUp h => WidExec.runList B B.listPageUp s h 0
+    | .setItems k => WidExec.runList B B.listSetItems s 0 k
+    | .draw h => WidExec.runList B B.listDraw s h 0
   match r, SimpleList.step genRhs s o with
   | some (.ok (s1, r1)), .ok (s2, r2) =>
     if s1 = s2 ∧ r1 = r2 then "" else s!" INTERP!=MODEL idx={s1.index} off={s1.offset} n={s1.n} rows={r1.length}"
